@@ -27,7 +27,8 @@
             "explicit"  autoincrement primary key + insert_sentinel() column (client-side counter 0..n-1)
             "none"      primary key from a non-monotonic server default, nothing to recognise a row by *)
 EXTENDS Integers, Sequences, FiniteSets, TLC, Json
-CONSTANTS MaxN, MaxPage, Styles, Sorts, Rets
+CONSTANTS MaxN, MaxPage, Styles, Sorts, Rets,
+          Caps      \* dialect.insertmanyvalues_max_parameters expressed as the number of rows it allows per statement (0 = no limit)
 VARIABLES st, last
 vars == <<st, last>>
 
@@ -62,10 +63,12 @@ NRows(s) == IF s.n = 0 THEN 1 ELSE s.n
 PlainMany(s) == ~Single(s) /\ ~s.ret
 \* ordering requested but no sentinel: every parameter set becomes its own statement
 Downgraded(s) == ~Single(s) /\ s.ret /\ s.sort /\ ~HasSentinel(s)
-PageSize(s) == IF Single(s) THEN 1 ELSE IF PlainMany(s) THEN s.n ELSE IF Downgraded(s) THEN 1 ELSE s.page
+\* the page size is further shrunk so that one statement never carries more bound parameters than the dialect allows
+Capped(s) == IF s.cap > 0 /\ s.cap < s.page THEN s.cap ELSE s.page
+PageSize(s) == IF Single(s) THEN 1 ELSE IF PlainMany(s) THEN s.n ELSE IF Downgraded(s) THEN 1 ELSE Capped(s)
 
-InitSt(n, page, style, sort, ret) ==
-  [n |-> n, page |-> page, style |-> style, sort |-> sort, ret |-> ret,
+InitSt(n, page, style, sort, ret, cap) ==
+  [n |-> n, cap |-> cap, page |-> page, style |-> style, sort |-> sort, ret |-> ret,
    phase |-> "exec", nxt |-> 1,
    batch |-> <<>>,      \* parameter indices of the statement in flight, in VALUES order
    sv |-> <<>>,         \* the sentinel values remembered for them
@@ -114,7 +117,8 @@ Fetch == /\ st.phase = "fetch"
                                      !.phase = IF nx > NRows(st) THEN "done" ELSE "exec"]
                  /\ last' = [a |-> "Fetch", batch |-> st.batch, perm |-> perm, many |-> FALSE,
                              ret |-> [k \in 1..Len(got) |-> got[k].p]]
-Init == /\ st \in {InitSt(n, page, style, sort, ret) : n \in 0..MaxN, page \in 1..MaxPage, style \in Styles, sort \in Sorts, ret \in Rets}
+Init == /\ st \in {InitSt(n, page, style, sort, ret, cap) : n \in 0..MaxN, page \in 1..MaxPage, style \in Styles, sort \in Sorts, ret \in Rets, cap \in Caps}
+        /\ (st.cap > 0 => st.cap < st.page)      \* a limit that does not bite is the same behaviour as no limit
         /\ (~st.ret => ~st.sort)            \* sort_by_parameter_order is an argument of returning()
         /\ last = [a |-> "init", batch |-> <<>>, perm |-> <<>>, many |-> FALSE, ret |-> <<>>]
 Next == Exec \/ Fetch
